@@ -186,6 +186,33 @@ func c04Worker(c *core.Collector, x *Ctx) {
 			run("random-k-cuts", frames, cuts)
 		}
 	})
+	// (2b) a read that ends INSIDE a frame at the moment the parser has something of its own to say: a sub-packaged transfer has
+	// been idle for 5.6 s (virtual time), so the read that follows makes the parser produce a re-request; that read holds a
+	// heartbeat cut at every position, the rest arrives with the next read, more frames follow. Whatever the parser does for its
+	// re-request must not touch the terminal's byte stream.
+	{
+		njobs := c.N(6, 24)
+		core.ParallelFor(njobs, ncpu(), func(i int) {
+			r := core.NewRand(c.Seed, "c04aged", uint64(i))
+			v19 := i%2 == 1
+			frag := hookFrame(v19, core.Pick(r, []uint16{0x0801, 0x0704}), r.U16(), true, 3, 1, c04Body(r, 2, 20+r.Intn(20)))
+			hb := hookFrame(v19, 0x0002, r.U16(), false, 0, 0, nil)
+			loc := hookFrame(v19, 0x0200, r.U16(), false, 0, 0, c04Body(r, i%3, 28))
+			hb2 := hookFrame(v19, 0x0002, r.U16(), false, 0, 0, nil)
+			frames := [][]byte{frag, hb, loc, hb2}
+			for k := 1; k < len(hb); k++ {
+				for _, age := range []int64{5600, 11000, 59000} {
+					ops := []hookOp{{Feed: core.Hex(frag)}, {AgeMs: age}, {Feed: core.Hex(hb[:k])}, {Feed: core.Hex(append(append([]byte{}, hb[k:]...), loc...))}, {Feed: core.Hex(hb2)}}
+					if k%2 == 0 {
+						ops = []hookOp{{Feed: core.Hex(frag)}, {AgeMs: age}, {Feed: core.Hex(hb[:k])}, {Feed: core.Hex(hb[k:])}, {AgeMs: 5600}, {Feed: core.Hex(loc[:len(loc)/2])}, {Feed: core.Hex(append(append([]byte{}, loc[len(loc)/2:]...), hb2...))}}
+					}
+					sc := &hookScenario{Kind: "hook", Gen: "aged read that ends inside a frame", Frames: hexAll(frames), Ops: ops}
+					hookEval(c, sc, cats, true)
+					c.Count("aged_reads_ending_inside_a_frame", 1)
+				}
+			}
+		})
+	}
 	// (3) frames of maximal wire size: bodies of 1015..1023 bytes made of 0x7e/0x7d only (every byte doubles on the wire: up to
 	// 2066 bytes for a 2019 header), between two small frames; every single cut in the first and last 40 bytes of the big frame,
 	// and every pair (cut inside the tail, cut k bytes earlier) for the reads a 1023-byte buffer would produce
@@ -298,5 +325,6 @@ func c04Worker(c *core.Collector, x *Ctx) {
 	c.Floor("long_lived_parser_megabytes", 200)
 	c.Floor("maximal_size_frames", 10)
 	c.Floor("fully_escaped_frames", 4)
+	c.Floor("aged_reads_ending_inside_a_frame", 100)
 	c.Floor("streams_with_exhaustive_1_and_2_cuts", 10)
 }
